@@ -20,7 +20,7 @@ RULE = ("Hypothesis draws 1-4 scalar recipes, stratified so that each specialise
         "forward-mode jets in V order at regular points.  Non-trivial = the returned callable is not the "
         "generic jacobian_fn/symbolic_gradient, or V is permuted / a strict superset."
         '  Also: parameters are updated after compilation (same callables re-judged) and the same expression objects are compiled against a second variable list.')
-BUDGET = {"quick": {"workers": 16, "examples": 300}, "thorough": {"workers": 16, "examples": 6000}}
+BUDGET = {"quick": {"workers": 16, "examples": 700}, "thorough": {"workers": 16, "examples": 6000}}
 ASSUMPTIONS = ["jet rules validated against mpmath at start-up", "singular points are C19's domain, not judged here"]
 MANIFEST = {
  "technique": "property-based testing (Hypothesis): compiled Jacobian/gradient closures vs forward-mode jets, stratified per fast path",
